@@ -18,6 +18,7 @@ from porepy.applications.md_grids.model_geometries import (
 )
 
 TOL = F(1, 10 ** 9)
+AD_KEY = "AdTpfaFlux.diffusive_flux: interface flux not applied on internal boundary faces"
 
 
 # ------------------------------------------------------------------------------------------
@@ -103,17 +104,22 @@ def build_model(case):
     return m
 
 
-def equations(m, physics):
-    """name -> (equation, accumulation, flux, source, interface flux) as the model
-    classes define them."""
+def equations(m, physics, laws="default"):
+    """name -> (equation, accumulation, flux, source, interface flux entering the source,
+    interface flux entering the face fluxes) as the model classes define them.  The last two
+    coincide except for the differentiable diffusive laws (constitutive_laws.AdTpfaFlux),
+    whose diffusive_flux applies the projected interface flux on external Neumann faces only:
+    with FouriersLawAd the interface Fourier flux is part of the energy source but not of the
+    fracture-face fluxes (the advective path adds its interface flux itself)."""
     eqs = {"mass": (m.mass_balance_equation, m.fluid_mass, m.fluid_flux, m.fluid_source,
-                    m.interface_fluid_flux)}
+                    m.interface_fluid_flux, m.interface_fluid_flux)}
     if physics == "energy":
+        lam = lambda i: m.interface_enthalpy_flux(i) + m.interface_fourier_flux(i)
+        lamf = m.interface_enthalpy_flux if laws in ("fourier_ad", "both_ad") else lam
         eqs["energy"] = (
             m.energy_balance_equation,
             lambda s: m.volume_integral(m.total_internal_energy(s), s, dim=1),
-            m.energy_flux, m.energy_source,
-            lambda i: m.interface_enthalpy_flux(i) + m.interface_fourier_flux(i))
+            m.energy_flux, m.energy_source, lam, lamf)
     return eqs
 
 
@@ -146,7 +152,8 @@ def structure_term(st):
 
 def evaluation_term(e):
     return (f"{{| e_acc := {qlist(e['acc'])}; e_flux := {qlist(e['flux'])}; "
-            f"e_lam := {qlist(e['lam'])}; e_src := {qlist(e['src'])}; "
+            f"e_lam := {qlist(e['lam'])}; e_lamf := {qlist(e.get('lamf', e['lam']))}; "
+            f"e_src := {qlist(e['src'])}; "
             f"e_div := {qlist(e['div'])}; e_res := {qlist(e['res'])} |}}")
 
 
@@ -155,7 +162,7 @@ class C04(Prop):
     props_file = "Props/C04.v"
     preamble = ("From Coq Require Import List ZArith QArith.\nImport ListNotations.\n"
                 "From PP Require Import Model.C04.\nOpen Scope Q_scope.\n")
-    n_cases = (24, 30)
+    n_cases = (20, 30)
     design_ref = "DESIGN.md §5 C04"
     level_text = (
         "METHOD-level Coq theorems over any commutative ring plus per-instance certificates. "
@@ -168,9 +175,15 @@ class C04(Prop):
         "subdomains (C04_interface_cancels); (3) closed boundary + no external source => sum of "
         "residuals = sum of accumulation rates for every state (C04_conservation); (4) the boolean "
         "certificate cert_ok evaluated on real matrices implies these hypotheses "
-        "(C04_certificate_sound).  Tie (certificate correspondence): for generated fractured "
+        "(C04_certificate_sound); (5) C04_deficit: when the interface flux entering the face fluxes "
+        "differs from the one entering the lower-dimensional source, sum residual = sum acc + "
+        "(received by faces) - (handed out by sources); (6) C04_adflux_conservation_refuted: the "
+        "faithful model of the differentiable diffusive laws (AdTpfaFlux: interface flux applied on "
+        "external Neumann faces only) does NOT conserve (concrete witness), (7) "
+        "C04_adflux_conservation_partial: it does when both interface fluxes have the same total.  Tie (certificate correspondence): for generated fractured "
         "md-grids (0-3 intersecting fractures; Cartesian 2-D quick; simplex and 3-D thorough) of "
-        "pp.SinglePhaseFlow and pp.MassAndEnergyBalance with zero-Neumann boundaries, Coq "
+        "pp.SinglePhaseFlow and pp.MassAndEnergyBalance (standard laws and the variants with "
+        "DarcysLawAd / FouriersLawAd mixed in) with zero-Neumann boundaries, Coq "
         "evaluates cert_ok on the REAL pp.ad.Divergence, mortar_to_primary_int and "
         "mortar_to_secondary_int matrices and, at random unconverged states (random primary "
         "variables at the previous time step and the current iterate, random interface fluxes, "
@@ -179,8 +192,10 @@ class C04(Prop):
         "face fluxes and interface fluxes, and compares with what the real AD operators "
         "(fluid_flux/energy_flux, fluid_source/energy_source, Divergence@flux, "
         "mass_balance_equation/energy_balance_equation) evaluate to, plus the conservation "
-        "identity sum(residual) = sum(accumulation rate), all within 1e-9 relative to the "
-        "magnitude of the terms.")
+        "identity sum(residual) = sum(accumulation rate) [+ the deficit predicted by (5) for the "
+        "FouriersLawAd variants], all within 1e-9 relative to the magnitude of the terms.  OPEN "
+        "FINDING (genuine, reproduced): with FouriersLawAd on a fractured domain the energy balance "
+        "is not conservative; the oracle reports it as KNOWN-FINDING on every run.")
     level_note = (
         "NOT proved: that the Python model classes compose their equations from exactly these "
         "operators (checked numerically per configuration and state by the tie); that the "
@@ -196,7 +211,8 @@ class C04(Prop):
     rule = ("random configurations: physics in {SinglePhaseFlow, MassAndEnergyBalance}; geometry in "
             "{unit square with 0-2 orthogonal (intersecting) fractures, 2x1 rectangle with 0-3 "
             "fractures meeting in one point, unit cube with 0-3 orthogonal fractures (thorough)}; "
-            "Cartesian (quick) / simplex (thorough); compressible and incompressible fluid; random "
+            "Cartesian (quick) / simplex (thorough); constitutive laws: standard (1/2), DarcysLawAd, "
+            "FouriersLawAd, both (energy); compressible and incompressible fluid; random "
             "dyadic material constants and time step; 3 (quick) / 6 (thorough) random states per "
             "configuration incl. an all-zero-interface-flux state; non-trivial = at least one "
             "fracture and a non-zero interface flux; distinct by (case, output)")
@@ -250,8 +266,10 @@ class C04(Prop):
                 grid_type = "cartesian"
                 cell_size = 0.5
             fluid, solid = self._materials(rng, incompressible=rng.random() < 0.25)
+            laws = (rng.choice(["default", "default", "darcy_ad"]) if physics == "flow" else
+                    rng.choice(["default", "default", "darcy_ad", "fourier_ad", "both_ad"]))
             yield {
-                "physics": physics, "geometry": geometry, "fractures": fr,
+                "physics": physics, "laws": laws, "geometry": geometry, "fractures": fr,
                 "grid_type": grid_type, "cell_size": cell_size,
                 "dt": rng.choice([0.125, 0.5, 1.0, 2.0]),
                 "fluid": fluid, "solid": solid,
@@ -278,14 +296,15 @@ class C04(Prop):
             "pp": coo(proj.mortar_to_primary_int().value(es)) if nm else [],
             "ps": coo(proj.mortar_to_secondary_int().value(es)) if nm else [],
         }
-        eqs = equations(m, case["physics"])
+        eqs = equations(m, case["physics"], case.get("laws", "default"))
         ops = {}
-        for name, (eq, acc, flux, src, lam) in eqs.items():
+        for name, (eq, acc, flux, src, lam, lamf) in eqs.items():
             ops[name] = {
                 "res": eq(sds), "mass": acc(sds), "mass_prev": acc(sds).previous_timestep(),
                 "acc": pp.ad.time_derivatives.dt(acc(sds), m.ad_time_step),
                 "flux": flux(sds), "src": src(sds), "div": div @ flux(sds),
                 "lam": lam(intfs) if nm else None,
+                "lamf": lamf(intfs) if nm else None,
             }
         ndof = es.num_dofs()
         # interface variables: zeroed in the "zero interface flux" states
@@ -311,8 +330,9 @@ class C04(Prop):
                 for k in ("res", "mass", "mass_prev", "acc", "flux", "src", "div"):
                     e[k] = val(k)
                 e["lam"] = val("lam") if nm else []
+                e["lamf"] = val("lamf") if nm else []
                 evals.append(e)
-        key = (f"{case['physics']}/{case['geometry']}/{case['grid_type']}/"
+        key = (f"{case['physics']}/{case.get('laws', 'default')}/{case['geometry']}/{case['grid_type']}/"
                f"{len(case['fractures'])}frac")
         self.stats[key] = self.stats.get(key, 0) + 1
         return {"structure": structure, "evals": evals}
@@ -354,6 +374,9 @@ class C04(Prop):
                                                   for e in res["evals"])
 
     def finding_key(self, case, res, why):
+        if (why.startswith("energy") and case.get("laws") in ("fourier_ad", "both_ad")
+                and len(case["fractures"]) > 0):
+            return AD_KEY
         return "conservation-" + why.split(" ")[0]
 
     def shrink(self, case, still_fails):
@@ -368,7 +391,11 @@ class C04(Prop):
                 c = dict(cur, fractures=fr)
                 if still_fails(c):
                     cur = c
-        if cur["physics"] == "energy":
+        if cur.get("laws", "default") != "default":
+            c = dict(cur, laws="default")
+            if still_fails(c):
+                cur = c
+        if cur["physics"] == "energy" and cur.get("laws", "default") in ("default", "darcy_ad"):
             c = dict(cur, physics="flow")
             if still_fails(c):
                 cur = c
